@@ -288,17 +288,20 @@ class Program:
 
 # ---------------------------------------------------------------------- small AST helpers
 def own_nodes(fn):
-    """All nodes of a function body that belong to the function's own scope
-    (nested function / class bodies excluded, lambdas and comprehensions included)."""
-    stack = list(fn.body)
-    while stack:
-        n = stack.pop()
+    """All nodes of a function body that belong to the function's own scope, in source
+    (pre-)order (nested function / class bodies excluded, lambdas and comprehensions included)."""
+    def rec(n):
         yield n
         for c in ast.iter_child_nodes(n):
             if isinstance(c, (ast.FunctionDef, ast.AsyncFunctionDef, ast.ClassDef)):
                 yield c  # the def statement itself, not its body
                 continue
-            stack.append(c)
+            yield from rec(c)
+    for s in fn.body:
+        if isinstance(s, (ast.FunctionDef, ast.AsyncFunctionDef, ast.ClassDef)):
+            yield s
+            continue
+        yield from rec(s)
 
 
 def calls_in(node):
